@@ -106,7 +106,9 @@ fn gen_history(rng: &mut Rng, tier: Tier) -> History {
     // S5: initial capacity knob
     let init_cap = match rng.below(10) {
         0..=4 => rng.below(41) as usize,
-        5..=7 => 1usize << rng.below(11),
+        5..=6 => 1usize << rng.below(11),
+        // any size a caller may ask for (the rounding to a power of two has to work for all of them)
+        7 => 41 + rng.usize(6000),
         _ => 16,
     };
     // key pool
@@ -169,7 +171,7 @@ fn gen_history(rng: &mut Rng, tier: Tier) -> History {
                 tag += 1;
                 Op::Entry(k, tag)
             }
-            6 => Op::Reserve(rng.usize(24)),
+            6 => Op::Reserve(if rng.chance(1, 6) { 200 + rng.usize(4000) } else { rng.usize(24) }),
             7 => Op::Clear,
             8 => Op::CloneSwap,
             9 => Op::Iter,
